@@ -421,4 +421,9 @@ def run(run: Run):
     run.floor('C03.R4', 2)
     run.floor('C03.R5', 8)
     run.floor('C03.R6', 14)
+    from . import pipeline_eval as _pe
+    from ..grammar import get_grammar as _gg_pe
+    run.rule('C03.R10', 'a workbook of dependent formulas gives every cell the same value in the whole-file translation and in each entry-point slice, end to end by evaluation')
+    run.guard('C03.R10', _pe.book_obligations, run, 'C03.R10', 'C03.R10', get_source(), _gg_pe(get_source()))
+    run.floor('C03.R10', 25)
     return INFO
